@@ -80,21 +80,28 @@ def condition_rules(chk, P):
     # missing: header column indexed by no index => Err
     b = P.body(CHECKS[2])
     if b is not None:
-        cc = closure_calls(P, CHECKS[2])
-        idx = [c for c in cc if c[1] == "EntryIndex::indexes"]
-        chain = [c for c in cc if c[1] == "Iterator::chain"]
-        good = bool(idx) and any(re.search(r"elem\(Iterator::enumerate\(\[T\]::iter\(self\.signals\)\)\)\.0", a) for c in idx for a in c[2]) and bool(chain) and any("input_indices" in " ".join(c[2]) and "expected_indices" in " ".join(c[2]) for c in chain)
-        chk.require(good, "TAB", "TAB:check_missing_signals:condition", "a header column is missing iff no input/expected index indexes it", "check_missing_signals no longer tests every header column against input_indices.chain(expected_indices) with indexes()")
+        c0 = P.body(CHECKS[2] + "::{closure#0}")
+        c00 = P.body(CHECKS[2] + "::{closure#0}::{closure#0}")
+        ANY = "Iterator::any(Iterator::chain([T]::iter(input_indices), expected_indices), closure({closure#0}))"
+        p0 = tab.predicate_table(P, c0) if c0 else set()
+        p00 = tab.predicate_table(P, c00) if c00 else set()
+        good = p0 == {(frozenset([(ANY, False)]), "Some(?)"), (frozenset([(ANY, True)]), "None")} and p00 == {(frozenset(), "EntryIndex::indexes(elem(Iterator::chain([T]::iter(input_indices), expected_indices)), elem(Iterator::enumerate([T]::iter(self.signals))).0)")}
+        fm = [[canon(x) for x in P.call_arg_terms(b, bb)] for bb, t in b.calls() if callee_name(t)[0] == "std::iter::Iterator::filter_map"]
+        good = good and fm == [["Iterator::enumerate([T]::iter(self.signals))", "closure({closure#0})"]]
+        chk.require(good, "TAB", "TAB:check_missing_signals:condition", "a header column is missing iff no input/expected index indexes it (exact table, every column)", "check_missing_signals decides by %s / %s over %s" % (sorted(p0, key=str), sorted(p00, key=str), fm))
         errs = [bb for (cb, bb, i, st) in P.constructors("std::result::Result::Err") if cb is b]
         good = len(errs) == 1 and any(x[0] == "call" and x[1] == "Vec::is_empty" and x[3] is False for x in panrules.guards_at(P, b, errs[0]))
         chk.require(good, "GUARD", "GUARD:check_missing_signals", "Err iff the missing list is non-empty", "check_missing_signals: %d error site(s), not guarded by !missing.is_empty()" % len(errs))
     # C columns: Err unless exists sig: name == col && is_input()
     b = P.body(CHECKS[3])
     if b is not None:
-        cc = closure_calls(P, CHECKS[3])
-        c0 = [c for c in cc if c[0].endswith("{closure#0}")]
-        good = any(c[1] == "Signal::is_input" for c in c0) and any("::eq" in c[1] and "name" in " ".join(c[2]) for c in c0)
-        chk.require(good, "TAB", "TAB:check_expected_inputs:condition", "any(sig.name == name && sig.is_input())", "the C-column check is no longer `any(sig.name == name && sig.is_input())`: %s" % [(c[1], c[2]) for c in c0])
+        c0 = P.body(CHECKS[3] + "::{closure#0}")
+        p0 = tab.predicate_table(P, c0) if c0 else set()
+        N = "some!(Iterator::next(IntoIterator::into_iter(Vec::drain(self.expected_inputs, ops::RangeFull{})))).0"
+        S = "elem([T]::iter(signals))"
+        want = {(frozenset([("Eq(%s.name, %s)" % (S, N), True)]), "Signal::is_input(%s)" % S), (frozenset([("Ne(%s.name, %s)" % (S, N), True)]), "0")}
+        anyc = [[canon(x) for x in P.call_arg_terms(b, bb)] for bb, t in b.calls() if callee_name(t)[0].endswith("Iterator>::any")]
+        chk.require(tab.same_function(p0, want, bool_result=True) and anyc == [["[T]::iter(signals)", "closure({closure#0})"]], "TAB", "TAB:check_expected_inputs:condition", "signals.iter().any(|sig| sig.name == name && sig.is_input())  (exact table)", "the C-column check is %s over %s" % (sorted(p0, key=str), anyc))
         errs = [bb for (cb, bb, i, st) in P.constructors("std::result::Result::Err") if cb is b]
         g = [panrules.guards_at(P, b, e) for e in errs]
         good = len(errs) == 2 and all(any(x[0] == "call" and x[1] == "Iterator::any" and x[3] is False for x in gg) for gg in g)
@@ -102,10 +109,13 @@ def condition_rules(chk, P):
     # reads: Ok iff exists sig: name == ident && is_output()
     b = P.body(CHECKS[4])
     if b is not None:
-        cc = closure_calls(P, CHECKS[4])
-        c0 = [c for c in cc if c[0].endswith("{closure#0}")]
-        good = any(c[1] == "Signal::is_output" for c in c0) and any("::eq" in c[1] and "name" in " ".join(c[2]) for c in c0)
-        chk.require(good, "TAB", "TAB:build_read_outputs:condition", "position(sig.name == name && sig.is_output())", "the output-read check is no longer `position(sig.name == name && sig.is_output())`: %s" % [(c[1], c[2]) for c in c0])
+        c0 = P.body(CHECKS[4] + "::{closure#0}")
+        p0 = tab.predicate_table(P, c0) if c0 else set()
+        N = "some!(Iterator::next(IntoIterator::into_iter(Vec::drain(self.read_outputs, ops::RangeFull{})))).0"
+        S = "elem([T]::iter(signals))"
+        want = {(frozenset([("Eq(%s.name, %s)" % (S, N), True)]), "Signal::is_output(%s)" % S), (frozenset([("Ne(%s.name, %s)" % (S, N), True)]), "0")}
+        posc = [[canon(x) for x in P.call_arg_terms(b, bb)] for bb, t in b.calls() if callee_name(t)[0].endswith("Iterator>::position") and canon(P.call_arg_terms(b, bb)[0]) == "[T]::iter(signals)"]
+        chk.require(tab.same_function(p0, want, bool_result=True) and posc == [["[T]::iter(signals)", "closure({closure#0})"]], "TAB", "TAB:build_read_outputs:condition", "signals.iter().position(|sig| sig.name == name && sig.is_output())  (exact table)", "the output-read check is %s over %s" % (sorted(p0, key=str), posc))
         errs = [bb for (cb, bb, i, st) in P.constructors("std::result::Result::Err") if cb is b]
         good = len(errs) == 2
         for e in errs:
@@ -113,6 +123,39 @@ def condition_rules(chk, P):
             if not arms or "None" not in arms[-1]["variants"]:
                 good = False
         chk.require(good, "GUARD", "GUARD:build_read_outputs", "Err iff no output-capable signal has the identifier's name", "build_read_outputs: %d error site(s) not all on the position == None edge" % len(errs))
+    # exact outcome tables of the two set-level checks
+    M = "Vec::is_empty(Iterator::collect(Iterator::filter_map(Iterator::enumerate([T]::iter(self.signals)), closure({closure#0}))))"
+    b = P.body(CHECKS[2])
+    if b is not None:
+        pt = tab.predicate_table(P, b)
+        chk.require(pt == {(frozenset([(M, False)]), "Err"), (frozenset([(M, True)]), "Ok")}, "TAB", "TAB:check_missing_signals:exact-outcome", "Err iff the list of unbound columns is non-empty", "check_missing_signals decides %s" % sorted(pt, key=str))
+    b = P.body(CHECKS[0])
+    if b is not None:
+        pt = tab.predicate_table(P, b)
+        S, V = "variant(Iterator::next(&[T]::into_iter(signals)))", "variant(Iterator::next(IntoIterator::into_iter(self.virtual_signals)))"
+        want_pt = {(frozenset([(S, ("None",)), (V, ("None",))]), "Ok"),
+                   (frozenset([(S, ("Some",)), ("HashSet::insert(HashSet::new(), some!(Iterator::next(&[T]::into_iter(signals))).name)", False)]), "Err"),
+                   (frozenset([(S, ("None",)), (V, ("Some",)), ("HashSet::contains(HashSet::new(), some!(Iterator::next(IntoIterator::into_iter(self.virtual_signals))).0.name)", True)]), "Err")}
+        chk.require(pt == want_pt, "TAB", "TAB:check_duplicate_signals:exact-outcome", "Err iff a signal name repeats or a virtual signal's name is among the signal names; Ok only after both scans ended", "check_duplicate_signals decides %s" % sorted(pt, key=str))
+    # exact per-item behaviour of the two draining loops: which decisions lead to Err / continue, nothing else
+    for fn, field, dec, tag in ((CHECKS[3], "expected_inputs", ("Iterator::any([T]::iter(signals), closure({closure#0}))", True), "expected-inputs"),
+                                (CHECKS[4], "read_outputs", ("variant(Iterator::position([T]::iter(signals), closure({closure#0})))", ("Some",)), "read-outputs")):
+        b = P.body(fn)
+        if b is None:
+            continue
+        hb = [bb for bb, t in b.calls() if callee_name(t)[0].endswith("Iterator>::next")]
+        if not chk.anchor("%s loop header" % tag, len(hb) == 1):
+            continue
+        NX = "variant(Iterator::next(IntoIterator::into_iter(Vec::drain(self.%s, ops::RangeFull{}))))" % field
+        POS = "variant(Iterator::position([T]::iter(self.signals), closure({closure#1})))"
+        neg = (dec[0], False) if dec[1] is True else (dec[0], ("None",))
+        rows = set((r[0], r[2]) for r in tab.iteration_table(P, b, hb[0]) if r[2] != "unreachable")
+        want_rows = {(frozenset([(NX, ("None",))]), "return:Ok"),
+                     (frozenset([(NX, ("Some",)), dec]), "back"),
+                     (frozenset([(NX, ("Some",)), neg, (POS, ("None",))]), "return:Err"),
+                     (frozenset([(NX, ("Some",)), neg, (POS, ("Some",))]), "return:Err")}
+        chk.require(rows == want_rows, "TAB", "TAB:%s:exact-loop-table" % tag, "each drained identifier: accepted iff the signal test holds, otherwise Err (NotAn… if it is a header column, else UnknownVariableOrSignal); Ok only when all were accepted",
+                    "%s's loop behaves as %s" % (fn.split("::")[-1], sorted(rows, key=str)))
     # no other reason to reject: error sites per function
     want = {CHECKS[0]: 2, CHECKS[2]: 1, CHECKS[3]: 2, CHECKS[4]: 2}
     counts = {}
@@ -125,17 +168,17 @@ def condition_rules(chk, P):
     chk.require(not extra, "WHO", "WHO:SignalError-sites", "SignalError is constructed at %s" % {k.split("::")[-1]: v for k, v in counts.items()}, "new rejection reason: SignalError constructed at %s (expected at most %s)" % ({k: v for k, v in extra.items()}, {k.split("::")[-1]: v for k, v in want.items()}))
 
 
-def scoping_rules(chk, P, only=None):
+def scoping_rules(chk, P, only=None, exclude=()):
     """Parse-time scoping decides which identifiers count as output reads.
     `only`: restrict to obligations whose key contains one of these substrings."""
-    if only is not None:
+    if only is not None or exclude:
         class _Filtered:
             def __init__(self, inner):
                 self._i = inner
             def __getattr__(self, n):
                 return getattr(self._i, n)
             def require(self, cond, rule, key, okd, bad, site=""):
-                if any(o in key for o in only):
+                if (only is None or any(o in key for o in only)) and not any(x in key for x in exclude):
                     return self._i.require(cond, rule, key, okd, bad, site)
                 return cond
             def floor(self, *a, **k):
